@@ -119,7 +119,13 @@ func (s *ftpService) Handle(ctx context.Context, conn net.Conn) error {
 	// and only ever reports this session's commands
 	recv := make(chan string)
 
-	ftpConn := s.server.newConn(conn, s.driver, recv)
+	// the working directory belongs to the session, not to the service
+	driver := s.driver
+	if fs, ok := driver.(*Fs); ok {
+		driver = NewFileDriver(fs.Session())
+	}
+
+	ftpConn := s.server.newConn(conn, driver, recv)
 
 	done := make(chan struct{})
 
